@@ -7,10 +7,16 @@
     `nodeKey` (hence both for the source as it stands and for the intended acceptor).
   * `structural_fixed_iff`: with sample indices compared with sample indices, this is
     "no cannot-link pair inside a must-link component".
+  * `inject_apply` (closed form of `intercept_grads`), `contrib_perm` (batch permutations),
+    `hasDerivAt_penalty` (the injected term is the gradient of the pairwise penalty).
 -/
 import GemVerif.Model.Mlcl
 import Mathlib.Logic.Relation
 import Mathlib.Data.List.Basic
+import GemVerif.NumReal
+import Mathlib.Analysis.Calculus.Deriv.Pow
+import Mathlib.Analysis.Calculus.Deriv.Add
+import Mathlib.Analysis.Calculus.Deriv.Mul
 
 namespace GemVerif.Spec.Mlcl
 open GemVerif.Model.Mlcl
@@ -488,5 +494,181 @@ theorem acceptsWith_fixed_iff (uniq : List Int) (ML CL : List Pair)
     rcases hne with rfl | rfl
     · intro p hp h; exact hcl' p hp (eqvGen_linked_nil h)
     · intro p hp; simp at hp
+
+/-! ### gradient injection (`intercept_grads`) over the reals -/
+
+section Inject
+open GemVerif
+variable {K : ℕ}
+
+/-- what one constraint `p` adds (cannot-link) or removes (must-link) at entry `(r, k)` -/
+noncomputable def contrib (last : List Int) (f : ℝ) (y : Rows ℝ K) (p : Pair) (r : ℕ) (k : Fin K) : ℝ :=
+  if p.1 ∈ last ∧ p.2 ∈ last then
+    (if r = last.idxOf p.1 then f * (y (last.idxOf p.1) k - y (last.idxOf p.2) k) else 0) +
+    (if r = last.idxOf p.2 then f * (y (last.idxOf p.2) k - y (last.idxOf p.1) k) else 0)
+  else 0
+
+theorem injectPair_apply (sub : Bool) (last : List Int) (f : ℝ) (y g : Rows ℝ K) (p : Pair) (r : ℕ)
+    (k : Fin K) :
+    injectPair sub last f y g p r k =
+      if sub then g r k - contrib last f y p r k else g r k + contrib last f y p r k := by
+  unfold injectPair contrib bumpRow
+  by_cases h1 : p.1 ∈ last <;> by_cases h2 : p.2 ∈ last
+  · by_cases h3 : r = last.idxOf p.1 <;> by_cases h4 : r = last.idxOf p.2
+    · have e : last.idxOf p.2 = last.idxOf p.1 := h4.symm.trans h3
+      cases sub <;> simp [h1, h2, h3, e]
+    · have e : ¬ last.idxOf p.1 = last.idxOf p.2 := fun e => h4 (h3.trans e)
+      cases sub <;> simp [h1, h2, h3, e]
+    · have e : ¬ last.idxOf p.2 = last.idxOf p.1 := fun e => h3 (h4.trans e)
+      cases sub <;> simp [h1, h2, h4, e]
+    · cases sub <;> simp [h1, h2, h3, h4]
+  all_goals cases sub <;> simp [h1, h2]
+
+theorem foldl_injectPair_apply (sub : Bool) (last : List Int) (f : ℝ) (y : Rows ℝ K) (ps : List Pair)
+    (g : Rows ℝ K) (r : ℕ) (k : Fin K) :
+    (ps.foldl (injectPair sub last f y) g) r k =
+      if sub then g r k - (ps.map fun p => contrib last f y p r k).sum
+      else g r k + (ps.map fun p => contrib last f y p r k).sum := by
+  induction ps generalizing g with
+  | nil => cases sub <;> simp
+  | cons p ps ih =>
+    rw [List.foldl_cons, ih, injectPair_apply]
+    cases sub <;> simp <;> ring
+
+/-- **closed form of the injected gradient**: entry `(r, k)` receives `+contrib` for every
+    cannot-link pair and `-contrib` for every must-link pair -/
+theorem inject_apply (last : List Int) (CL ML : List Pair) (f : ℝ) (y g : Rows ℝ K) (r : ℕ) (k : Fin K) :
+    inject last CL ML f y g r k =
+      g r k + (CL.map fun p => contrib last f y p r k).sum - (ML.map fun p => contrib last f y p r k).sum := by
+  unfold inject
+  simp only [foldl_injectPair_apply, if_true, Bool.false_eq_true, if_false]
+
+theorem contrib_eq_zero {last : List Int} {f : ℝ} {y : Rows ℝ K} {p : Pair} {r : ℕ} {k : Fin K}
+    (h : p.1 ∈ last → p.2 ∈ last → r ≠ last.idxOf p.1 ∧ r ≠ last.idxOf p.2) : contrib last f y p r k = 0 := by
+  unfold contrib
+  by_cases hm : p.1 ∈ last ∧ p.2 ∈ last
+  · obtain ⟨h1, h2⟩ := h hm.1 hm.2
+    simp [hm, h1, h2]
+  · simp [hm]
+
+/-- position bookkeeping under a permutation of the batch -/
+theorem idxOf_perm {last last' : List Int} {σ : ℕ → ℕ} (hnd : last.Nodup) (hperm : last'.Perm last)
+    (hσ : ∀ r, r < last'.length → last'[r]? = last[σ r]?) {a : Int} (ha : a ∈ last) :
+    σ (last'.idxOf a) = last.idxOf a ∧
+      ∀ r, r < last'.length → (r = last'.idxOf a ↔ σ r = last.idxOf a) := by
+  have ha' : a ∈ last' := hperm.mem_iff.2 ha
+  have hnd' : last'.Nodup := hperm.nodup_iff.2 hnd
+  have key : ∀ r, r < last'.length → (last'[r]? = some a ↔ last[σ r]? = some a) := by
+    intro r hr; rw [hσ r hr]
+  have pos : ∀ (l : List Int), l.Nodup → ∀ i, l[i]? = some a → l.idxOf a = i := by
+    intro l hl i hi
+    obtain ⟨hlt, he⟩ := List.getElem?_eq_some_iff.1 hi
+    rw [← he]; exact hl.idxOf_getElem i hlt
+  have h0 : σ (last'.idxOf a) = last.idxOf a :=
+    (pos last hnd _ ((key _ (List.idxOf_lt_length_of_mem ha')).1 (List.getElem?_idxOf ha'))).symm
+  refine ⟨h0, fun r hr => ⟨fun h => h ▸ h0, fun h => ?_⟩⟩
+  have : last[σ r]? = some a := by rw [h]; exact List.getElem?_idxOf ha
+  exact (pos last' hnd' r ((key r hr).2 this)).symm
+
+theorem contrib_perm {last last' : List Int} {σ : ℕ → ℕ} (hnd : last.Nodup) (hperm : last'.Perm last)
+    (hσ : ∀ r, r < last'.length → last'[r]? = last[σ r]?) (f : ℝ) (y : Rows ℝ K) (p : Pair) (r : ℕ)
+    (hr : r < last'.length) (k : Fin K) :
+    contrib last' f (fun r => y (σ r)) p r k = contrib last f y p (σ r) k := by
+  unfold contrib
+  by_cases hm : p.1 ∈ last ∧ p.2 ∈ last
+  · have hm' : p.1 ∈ last' ∧ p.2 ∈ last' := ⟨hperm.mem_iff.2 hm.1, hperm.mem_iff.2 hm.2⟩
+    obtain ⟨e1, i1⟩ := idxOf_perm hnd hperm hσ hm.1
+    obtain ⟨e2, i2⟩ := idxOf_perm hnd hperm hσ hm.2
+    simp only [hm, hm', and_self, if_true, e1, e2, i1 r hr, i2 r hr]
+  · have hm' : ¬ (p.1 ∈ last' ∧ p.2 ∈ last') := by
+      rw [hperm.mem_iff, hperm.mem_iff]; exact hm
+    simp [hm, hm']
+
+/-! ### the injected term is the gradient of the pairwise penalty -/
+open scoped BigOperators
+
+/-- `y` with entry `(r, k)` replaced by `t` -/
+def setEntry (y : Rows ℝ K) (r : ℕ) (k : Fin K) (t : ℝ) : Rows ℝ K :=
+  fun r' k' => if r' = r ∧ k' = k then t else y r' k'
+
+/-- `‖p_i - p_j‖²` for a pair with both ends in the batch, `0` for any other pair -/
+noncomputable def pairSq (last : List Int) (y : Rows ℝ K) (p : Pair) : ℝ :=
+  if p.1 ∈ last ∧ p.2 ∈ last then ∑ k, (y (last.idxOf p.1) k - y (last.idxOf p.2) k) ^ 2 else 0
+
+/-- `½·factor·(Σ_CL ‖p_i-p_j‖² - Σ_ML ‖p_i-p_j‖²)` restricted to the pairs inside the batch -/
+noncomputable def penalty (last : List Int) (CL ML : List Pair) (f : ℝ) (y : Rows ℝ K) : ℝ :=
+  (CL.map fun p => 1 / 2 * f * pairSq last y p).sum - (ML.map fun p => 1 / 2 * f * pairSq last y p).sum
+
+theorem setEntry_self (y : Rows ℝ K) (r : ℕ) (k : Fin K) : setEntry y r k (y r k) = y := by
+  funext r' k'
+  unfold setEntry
+  split_ifs with h
+  · obtain ⟨rfl, rfl⟩ := h; rfl
+  · rfl
+
+theorem hasDerivAt_entry (y : Rows ℝ K) (r : ℕ) (k : Fin K) (a : ℕ) (k' : Fin K) (t : ℝ) :
+    HasDerivAt (fun t => setEntry y r k t a k') (if a = r ∧ k' = k then 1 else 0) t := by
+  unfold setEntry
+  split_ifs with h
+  · exact hasDerivAt_id _
+  · exact hasDerivAt_const _ _
+
+theorem hasDerivAt_halfSq (f : ℝ) (y : Rows ℝ K) (a b r : ℕ) (k : Fin K) :
+    HasDerivAt (fun t => 1 / 2 * f * ∑ k', (setEntry y r k t a k' - setEntry y r k t b k') ^ 2)
+      ((if r = a then f * (y a k - y b k) else 0) + (if r = b then f * (y b k - y a k) else 0)) (y r k) := by
+  have h1 : ∀ k' : Fin K, HasDerivAt (fun t => (setEntry y r k t a k' - setEntry y r k t b k') ^ 2)
+      (2 * (y a k' - y b k') *
+        ((if a = r ∧ k' = k then 1 else 0) - (if b = r ∧ k' = k then 1 else 0))) (y r k) := by
+    intro k'
+    have := ((hasDerivAt_entry y r k a k' (y r k)).fun_sub (hasDerivAt_entry y r k b k' (y r k))).fun_pow 2
+    refine this.congr_deriv ?_
+    simp only [setEntry_self, Nat.add_one_sub_one, pow_one, Nat.cast_ofNat]
+  have h2 := (HasDerivAt.fun_sum (u := Finset.univ) (fun k' _ => h1 k')).const_mul (1 / 2 * f)
+  refine h2.congr_deriv ?_
+  by_cases ha : r = a <;> by_cases hb : r = b
+  · subst ha; subst hb; simp
+  · subst ha
+    have hb' : ¬ b = r := fun e => hb e.symm
+    simp [hb, hb', mul_sub]; ring
+  · subst hb
+    have ha' : ¬ a = r := fun e => ha e.symm
+    simp [ha, ha', mul_sub]; ring
+  · have ha' : ¬ a = r := fun e => ha e.symm
+    have hb' : ¬ b = r := fun e => hb e.symm
+    simp [ha, hb, ha', hb']
+
+/-- one pair: `∂/∂y[r,k] (½·f·‖p_i-p_j‖²) = contrib` -/
+theorem hasDerivAt_pairSq (last : List Int) (f : ℝ) (y : Rows ℝ K) (p : Pair) (r : ℕ) (k : Fin K) :
+    HasDerivAt (fun t => 1 / 2 * f * pairSq last (setEntry y r k t) p) (contrib last f y p r k) (y r k) := by
+  unfold pairSq contrib
+  by_cases hm : p.1 ∈ last ∧ p.2 ∈ last
+  · simp only [hm, and_self, if_true]
+    exact hasDerivAt_halfSq f y _ _ r k
+  · simp only [hm, if_false, mul_zero]
+    exact hasDerivAt_const _ _
+
+theorem hasDerivAt_list_sum {β : Type} (l : List β) (F : β → ℝ → ℝ) (F' : β → ℝ) (x : ℝ)
+    (h : ∀ b ∈ l, HasDerivAt (F b) (F' b) x) :
+    HasDerivAt (fun t => (l.map fun b => F b t).sum) (l.map F').sum x := by
+  induction l with
+  | nil => simpa using hasDerivAt_const x (0 : ℝ)
+  | cons b bs ih =>
+    simp only [List.map_cons, List.sum_cons]
+    exact (h b List.mem_cons_self).add (ih fun c hc => h c (List.mem_cons_of_mem _ hc))
+
+/-- **the injected term is the partial derivative of the pairwise penalty** with respect to the
+    prediction entry `(r, k)` -/
+theorem hasDerivAt_penalty (last : List Int) (CL ML : List Pair) (f : ℝ) (y g : Rows ℝ K) (r : ℕ) (k : Fin K) :
+    HasDerivAt (fun t => penalty last CL ML f (setEntry y r k t))
+      (inject last CL ML f y g r k - g r k) (y r k) := by
+  unfold penalty
+  have hC := hasDerivAt_list_sum CL (fun p t => 1 / 2 * f * pairSq last (setEntry y r k t) p)
+    (fun p => contrib last f y p r k) (y r k) (fun p _ => hasDerivAt_pairSq last f y p r k)
+  have hM := hasDerivAt_list_sum ML (fun p t => 1 / 2 * f * pairSq last (setEntry y r k t) p)
+    (fun p => contrib last f y p r k) (y r k) (fun p _ => hasDerivAt_pairSq last f y p r k)
+  refine (hC.sub hM).congr_deriv ?_
+  rw [inject_apply]; ring
+
+end Inject
 
 end GemVerif.MlclLemmas
